@@ -10,7 +10,10 @@ token) — and, for the case's own tag, recomputed from `Spec.Attrs` (the indepe
 tag's bytes); if the two disagree the line is prefixed `SPEC-MISMATCH`, which can never equal the
 implementation's line.
 
-case:  <ctx html|svg|math> <tag bytes hex> <cut | -> <query hex[,query hex]* | ->
+case:  <ctx html|svg|math> <tag bytes hex> <cut | -> [<edit[,edit]* | ->] <query hex[,query hex]* | ->
+       edit = s:<name hex>:<value hex> | r:<name hex> | n:<new tag name hex>     (`-` = empty string)
+       The edits are applied, in order, to EVERY element in its handler after the first round of reads;
+       then tag_name / attributes() / the queries are read again (record suffix `:A:…`).
 obs :  see harness/src/lanes/attrs.rs
 -/
 namespace LolHtml.Lane.Attrs
@@ -67,6 +70,40 @@ def tokenAttrs : Token → AttrsApi.AttrList
   | .startTag _ as .. => as
   | _ => []
 
+def hx (b : UInt8) : String := hexOrDash [b]
+
+def editResStr : AttrsApi.EditRes → String
+  | .ok => "o"
+  | .attrName .empty => "eE"
+  | .attrName (.forbidden c) => s!"eF{hx c}"
+  | .tagName .empty => "tE"
+  | .tagName .invalidFirstCharacter => "tI"
+  | .tagName (.forbidden c) => s!"tF{hx c}"
+
+def tokenName : Token → Bytes
+  | .startTag n .. => n
+  | _ => []
+
+def tokenBase : Token → Nat
+  | .startTag _ _ _ _ _ _ base => base
+  | _ => 0
+
+def queryStrE (items : AttrsApi.EAttrList) (q : Bytes) : String :=
+  let g := match AttrsApi.getAttributeE items q with
+    | none => "N"
+    | some v => hexOrDash v
+  s!"g{g}h{b01 (AttrsApi.hasAttributeE items q)}"
+
+/-- the reads after the edit script -/
+def afterStr (edits : List AttrsApi.Edit) (queries : List Bytes) (t : Token) : String :=
+  if edits.isEmpty then "" else
+  let r := AttrsApi.ETag.applyAll ⟨tokenName t, AttrsApi.materialise (tokenAttrs t)⟩ edits
+  let et := r.1
+  let attrs := if et.items.isEmpty then "-" else
+    "+".intercalate (et.items.map fun a => attrStr (a.1, a.2.1) (AttrsApi.attrLocationsE (tokenBase t) a))
+  let qs := if queries.isEmpty then "-" else ",".intercalate (queries.map (queryStrE et.items))
+  s!":A:{",".intercalate (r.2.map editResStr)}:{hexOrDash (AttrsApi.tagName et.name)}:{hexOrDash et.name}:{attrs}:{qs}"
+
 def recStr (queries : List Bytes) (v : AttrsApi.View) (t : Token) : String :=
   let as := tokenAttrs t
   let pc := as.map fun a => (a.1, a.2.1)
@@ -112,9 +149,20 @@ def specView (doc : Bytes) (base : Nat) : Option SpecView :=
 def ofView (v : AttrsApi.View) : SpecView :=
   ⟨v.tagName, v.tagNamePreserveCase, v.attributes, v.selfClosing, v.src, v.locations⟩
 
-def run (line : String) : String :=
-  match line.splitOn " " with
-  | [ctx, hex, cut, qs] =>
+def ofHexOrDash (s : String) : Option Bytes := if s == "-" then some [] else ofHex s
+
+def parseEdit (e : String) : Option AttrsApi.Edit :=
+  match e.splitOn ":" with
+  | ["s", n, v] => match ofHexOrDash n, ofHexOrDash v with
+    | some n, some v => some (.set n v)
+    | _, _ => none
+  | ["r", n] => (ofHexOrDash n).map .remove
+  | ["n", n] => (ofHexOrDash n).map .rename
+  | _ => none
+
+def runCase (ctx hex cut es qs : String) : String :=
+  match (ctx, hex, cut, qs) with
+  | (ctx, hex, cut, qs) =>
     let prefix? : Option Bytes := match ctx with
       | "html" => some []
       | "svg" => some [60, 115, 118, 103, 62]
@@ -122,8 +170,9 @@ def run (line : String) : String :=
       | _ => none
     let queries? : Option (List Bytes) := if qs == "-" then some [] else (qs.splitOn ",").mapM ofHex
     let cut? : Option (Option Nat) := if cut == "-" then some none else cut.toNat?.map some
-    match prefix?, ofHex hex, cut?, queries? with
-    | some pre, some tag, some cut, some queries =>
+    let edits? : Option (List AttrsApi.Edit) := if es == "-" then some [] else (es.splitOn ",").mapM parseEdit
+    match prefix?, ofHex hex, cut?, queries?, edits? with
+    | some pre, some tag, some cut, some queries, some edits =>
       let doc := pre ++ tag
       let pieces : List Bytes := match cut with
         | none => [doc]
@@ -132,7 +181,7 @@ def run (line : String) : String :=
       let out := runPieces rw pieces
       let c := out.1.stream.disp.ctl
       let views := c.views.reverse
-      let recs := (views.zip c.tokens.reverse).map fun (v, t) => recStr queries v t
+      let recs := (views.zip c.tokens.reverse).map fun (v, t) => recStr queries v t ++ afterStr edits queries t
       let obs := s!"{";".intercalate out.2} # {if recs.isEmpty then "-" else ";".intercalate recs}"
       -- the spec's reading of the case's own tag vs the model's (bytes after the tag's `>` may form
       -- further tags; only the case's own tag is compared)
@@ -144,7 +193,12 @@ def run (line : String) : String :=
          | some (.finished _) => decide ((views[nPrefix]?).map ofView = specView doc pre.length))
       if out.2.contains "panic" || out.2.contains "internal" then "PANIC model"
       else if agrees then obs else s!"SPEC-MISMATCH {obs}"
-    | _, _, _, _ => "bad-case"
+    | _, _, _, _, _ => "bad-case"
+
+def run (line : String) : String :=
+  match line.splitOn " " with
+  | [ctx, hex, cut, qs] => runCase ctx hex cut "-" qs
+  | [ctx, hex, cut, es, qs] => runCase ctx hex cut es qs
   | _ => "bad-case"
 
 end LolHtml.Lane.Attrs
